@@ -125,3 +125,43 @@ PROPS['C15'] = dict(
     level_text="Lean 4 theorems C15_and / C15_or / C15_sans / C15_xor: the class functions as written (And: filter-by-ContainsValue then AddValue; Or: AddValues twice; Sans: AddValues then RemoveValues; Xor: Or of two Sans) return a strictly ascending duplicate-free set whose members are exactly the intersection / union / difference / symmetric difference up to rank-equivalence, for every pair of sets and every total-preorder collator; C15_step_refines (they refine the executable spec the driver applies to the real observations); C15_same_operand (A op A). Operand immutability and result independence are runtime aliasing facts checked dynamically by the harness probes.",
     level_note="In the model operands are values, so 'operands unchanged' is by construction; the storage-independence half of the property is validated by the harness's mutate-and-reread probes (aft_a, aft_b, indep fields), not proved.",
 )
+
+def assoc_key(l):
+    return (l.get('k'), l.get('ty'), l.get('op'), l.get('out'), size_class(len(l.get('pre', []))), size_class(len(l.get('vs', []))),
+            l.get('rk', ''), l.get('alias', ''),
+            'present' if l.get('a') and any(p[0] == l['a'][0] for p in l.get('pre', [])) else 'absent' if l.get('a') else '')
+
+PROPS['C14'] = dict(
+    id='C14', modules=['CollectionModel.Props.C14'], key=assoc_key, nontrivial=lambda l: l.get('op') != 'make' or len(l.get('ps', [])) > 1,
+    rule="cases = single Map calls (contents before sorted by key, operation, result, contents after): every operation with every "
+         "present and absent key from states built over ordered subsets of the universe through all three constructors, key "
+         "sequences with duplicates and absent keys, constructors with repeated keys, random histories; key types string, int, "
+         "rune, any; distinct = distinct (key type, operation, outcome, size classes, key present/absent)",
+    exhaustive_subspaces="all single steps from every ordered subset of a 3-key (quick) / 4-key (thorough) universe",
+    level_text="Lean 4 theorems C14_set / C14_remove / C14_removeValues (reading after SetValue / RemoveValue(s) equals the abstract Go map k -> lookup, absent keys read and remove as zero, a key requested twice reads zero the second time), C14_make_last_wins (constructors: the last association wins, keys distinct), C14_step_nodup / C14_history_nodup (keys stay distinct under every call of every history), C14_views (array view, iteration and key list enumerate exactly the associations of the abstract map, each once). Tied to /repo by the differential run (finite-map equality, unordered views compared as permutations) and the executable spec mapAllowed.",
+    level_note="A Go map is modelled as an association list with distinct keys in unspecified order; key identity is Go == on canonical ids. The executable spec mapAllowed is written against lookup, independently of mset/mremove; its agreement with the model on every line is part of the correspondence run.",
+)
+
+PROPS['C03'] = dict(
+    id='C03', modules=['CollectionModel.Props.C03'], key=assoc_key, nontrivial=lambda l: l.get('op') != 'make' or len(l.get('ps', [])) > 1,
+    rule="cases = single Catalog calls (associations in order + observable key index GetValue(k) for every universe key, before "
+         "and after): every operation with every present/absent key from states over ordered subsets, bulk key sequences, "
+         "constructors with repeated keys, sort (default and custom ranker) / reverse / shuffle, random histories; key types "
+         "string, int, rune, float64, any and *int (distinct pointers with equal content); values repeating across keys",
+    exhaustive_subspaces="all single steps from every ordered subset of a 3-key (quick) / 4-key (thorough) universe per key type",
+    level_text="Lean 4 theorems over the two-component model (association list + key index as separate structures, updated as catalog.go updates them): C03_set (new key appended, existing key replaced in place, invariant kept), C03_remove / C03_removeValues (exactly that association deleted, value-or-zero returned, located by key), C03_views_agree, C03_reorder (sort/reverse/shuffle permute only; mapping unchanged), C03_step_inv / C03_history_inv (list and key index describe the same associations with distinct keys after EVERY call of EVERY history). Tied to /repo by the differential run and the executable spec catAllowed + observable-coherence check.",
+    level_note="The private key index is observed through GetValue on every universe key. Association objects shared between list and index are modelled by updating both components. Sampled correspondence.",
+)
+
+PROPS['C16'] = dict(
+    id='C16', modules=['CollectionModel.Props.C16'], key=lambda l: (l.get('k'), l.get('op'), l.get('out'), size_class(len(l.get('ps', l.get('vs', [])))), size_class(len(l.get('qs', l.get('ws', [])))), l.get('alias', ''), size_class(len(l.get('post', [])))),
+    nontrivial=lambda l: len(l.get('ps', l.get('vs', []))) + len(l.get('qs', l.get('ws', []))) > 0,
+    rule="cases = one Merge / Extract / Concatenate call on freshly built operands with purity probes (operands re-read after "
+         "the call, result and operands mutated afterwards and the other side re-read): Merge over pairs of catalogs whose keys "
+         "are ordered subsets of a 4-key universe (quick: every 7th of 4225 pairs + all aliased), Extract over 65 catalogs x 9 key "
+         "sequences (present, absent, repeated, own keys, zero values under present keys), Concatenate over pairs of lists over a "
+         "3-value alphabet up to length 4 (quick: every 23rd of 14641 + all aliased), random larger cases",
+    exhaustive_subspaces="thorough tier: all 4225 catalog pairs for Merge, all 14641 list pairs for Concatenate",
+    level_text="Lean 4 theorems C16_concatenate (a ++ b), C16_merge (a's keys in a's order then b's new keys in b's order, b's value wins, invariant holds), C16_extract (in request order exactly the requested associations the catalog contains, nothing for an absent key), C16_merge_same (aliased operands). Purity (operands unchanged, no shared mutable state) is by construction in the value model and is validated on the real code by the harness probes.",
+    level_note="Purity/aliasing is a runtime storage fact checked dynamically (aft_a / aft_b / indep / stale fields), not proved.",
+)
